@@ -11,3 +11,14 @@ def build_shim(ctx):
     if r.returncode:
         raise Infra("shim: " + r.stderr)
     return out
+
+
+def build_execshim(ctx):
+    out = ctx.path("execshim.so")
+    if os.path.exists(out):
+        return out
+    r = subprocess.run(["gcc", "-shared", "-fPIC", "-O1", "-o", out, os.path.join(HARNESS, "execshim.c"), "-ldl"],
+                       capture_output=True, text=True)
+    if r.returncode:
+        raise Infra("execshim: " + r.stderr)
+    return out
